@@ -61,6 +61,8 @@ def lame(c, k):
         return (A - g / r ** 2, A + g / r ** 2 - 2 * mu * kk * dT(r),
                 lam * ((A - lam * ez) / (lam + mu) + ez) + 2 * mu * ez - 2 * mu * kk * dT(r))
     N = 2 * math.pi * nu * ri ** 2 * p + E * ez * math.pi * (ro ** 2 - ri ** 2) - E * al * 2 * math.pi * Jo
+    # magnitude of the three terms the force is the (possibly cancelling) sum of
+    s.terms = abs(2 * math.pi * nu * ri ** 2 * p) + abs(E * ez * math.pi * (ro ** 2 - ri ** 2)) + abs(E * al * 2 * math.pi * Jo)
     return s, N
 
 
@@ -278,8 +280,11 @@ def run(ctx):
         i = fam["1D"][-1]
         _, _, scale, N = stresses(cases[i], res[i])
         Nfe = uv(res[i]["force"][-1])
-        if abs(Nfe - N) > 2e-3 * (abs(N) + scale * area(cases[i]) * 1e-2):
-            findings.append((cases[i], "1D axial force %.8g differs from the closed form %.8g" % (Nfe, N)))
+        sfun, _ = lame(cases[i], len(cases[i]["times"]) - 1)
+        # second-order mesh accuracy relative to the terms the force is made of (they may cancel)
+        tolN = 1.0 * (1.0 / (cases[i]["nr"] - 1)) ** 2 * sfun.terms + 1e-9 * scale * area(cases[i])
+        if abs(Nfe - N) > tolN:
+            findings.append((cases[i], "1D axial force %.8g differs from the closed form %.8g by more than the mesh accuracy %.3g" % (Nfe, N, tolN)))
         for i in idx:
             for step in range(1, len(cases[i]["times"])):
                 K = uv(res[i]["stiffness"][step])
